@@ -8,7 +8,7 @@
    note); its one order dependence (a utility reached only through nthChild.ofRule) was a genuine
    defect found by the repeated-load stream and repaired (known_findings.txt). *)
 From Coq Require Import List NArith ZArith Bool Arith Permutation.
-From AG Require Import Base.Val Base.Sort Tree.Tree Rule.Rule Rule.Traversal Rule.Scan Front.Select Front.PermSpec Front.PermProofs.
+From AG Require Import Base.Val Base.Sort Tree.Tree Rule.Rule Rule.Traversal Rule.Scan Front.Select Front.PermSpec Front.PermProofs Front.Load Front.LoadSpec Front.Apply Front.ApplyProofs.
 Import ListNotations.
 
 (* rule files in any order (distinct ids): same dispatch order, same scan result *)
@@ -45,6 +45,18 @@ Theorem C13_topo_confluence :
       forall x, run_order V compute o1 e x = run_order V compute o2 e x.
 Proof. exact PermProofs.C13_topo_confluence. Qed.
 Print Assumptions C13_topo_confluence.
+
+(* the concrete transformation pass (Front/Apply.v): whichever admissible order the loader's hash maps
+   produced, the transformed variables are the same *)
+Theorem C13_apply_order_independent :
+  forall (compute : str -> transf -> option str -> str) ts o1 o2 e0,
+    NoDup (map fst ts) ->
+    (forall key t, lookup key ts = Some t -> source_var t <> None) ->
+    good_order ts o1 -> good_order ts o2 -> a_trans e0 = [] ->
+    (forall key, In key (map fst ts) -> lookup key (a_single e0) = None) ->
+    forall key, lookup key (a_trans (apply_all compute ts o1 e0)) = lookup key (a_trans (apply_all compute ts o2 e0)).
+Proof. exact ApplyProofs.C13_apply_order_independent. Qed.
+Print Assumptions C13_apply_order_independent.
 
 (* non-vacuity: two admissible orders of  X <- A, Y <- X, Z <- A  (keys 1,2,3; 0 is the source) *)
 Example C13_topo_ex :
